@@ -22,14 +22,43 @@ import (
 
 type c06Row struct{ Ver int64 }
 
+// C06Tokener lets harness rows of other packages (sqlc) go through the token-table stand-in of jsonx.
+type C06Tokener interface {
+	VerifToken() int64
+	VerifFromToken(n int64)
+}
+
 //verif:stub github.com/zeromicro/go-zero/core/jsonx.Marshal c06Marshal
 func c06Marshal(v any) ([]byte, error) {
-	return []byte("row:" + strconv.FormatInt(v.(*c06Row).Ver, 10)), nil
+	switch x := v.(type) {
+	case *c06Row:
+		return []byte("row:" + strconv.FormatInt(x.Ver, 10)), nil
+	case C06Tokener:
+		return []byte("row:" + strconv.FormatInt(x.VerifToken(), 10)), nil
+	case *any:
+		if n, ok := (*x).(int64); ok {
+			return []byte("pk:" + strconv.FormatInt(n, 10)), nil
+		}
+	case int64:
+		return []byte("pk:" + strconv.FormatInt(x, 10)), nil
+	}
+	return nil, errors.New("c06: value outside the token table")
 }
 
 //verif:stub github.com/zeromicro/go-zero/core/jsonx.Unmarshal c06Unmarshal
 func c06Unmarshal(data []byte, v any) error {
 	s := string(data)
+	if p, ok := v.(*any); ok {
+		if len(s) < 4 || s[:3] != "pk:" {
+			return errors.New("c06: malformed cache content")
+		}
+		n, err := strconv.ParseInt(s[3:], 10, 64)
+		if err != nil {
+			return err
+		}
+		*p = n
+		return nil
+	}
 	if len(s) < 5 || s[:4] != "row:" {
 		return errors.New("c06: malformed cache content")
 	}
@@ -37,7 +66,14 @@ func c06Unmarshal(data []byte, v any) error {
 	if err != nil {
 		return err
 	}
-	v.(*c06Row).Ver = n
+	switch x := v.(type) {
+	case *c06Row:
+		x.Ver = n
+	case C06Tokener:
+		x.VerifFromToken(n)
+	default:
+		return errors.New("c06: destination outside the token table")
+	}
 	return nil
 }
 
